@@ -21,6 +21,7 @@ def errName : Err → String
   | .sortMixed => "*"
   | .ambiguous => "AmbiguousMethodException"
   | .tooLarge => "CollectionTooLargeException"
+  | .wrappedStop => "WrappedException"
   | .outOfDomain => "OOD"
 
 def chars (j : Json) : List Char := (asStr j).toList
@@ -149,10 +150,10 @@ def opOfJson (j : Json) : Option Op :=
   | "unpack" => some (.unpack ((jarr j "names").map chars) (jnat j "n"))
   | _ => none
 
-/-- `"opts":{"id":bool,"tl":bool,"sl":bool,"ci":bool,"lim":n|null}`: the options of the engine the statement belongs to -/
+/-- `"opts":{"id":bool,"tl":bool,"sl":bool,"ci":bool,"lim":n|null,"co":bool}`: the options of the engine the statement belongs to -/
 def optsOfJson (j : Json) : Opts :=
   { iterableDicts := jbool j "id", tuplesToLists := jbool j "tl", setsToLists := jbool j "sl", convertInput := jbool j "ci",
-    limit := jnatOpt j "lim" }
+    limit := jnatOpt j "lim", convertOutput := !(jhas j "co") || jbool j "co" }
 
 /-- `"obs":{"shape":"letPair","u":<op>,"u2":<op>}`: the observing program around the pipeline's result -/
 def obsOfJson (j : Json) : Option Obs := do
